@@ -35,8 +35,8 @@ Iupac(x) ==
     [] x = "h" -> {"a", "c", "t"}  [] x = "v" -> {"a", "c", "g"}
     [] x = "n" -> {"a", "c", "g", "t"}
 
-CompatTab == [p \in Sym \X Sym |-> Iupac(p[1]) \cap Iupac(p[2]) # {}]   \* evaluated once
-Compat(x, y) == CompatTab[<<x, y>>]
+MatchTab == [x \in Sym |-> {y \in Sym : Iupac(x) \cap Iupac(y) # {}}]   \* evaluated once
+Compat(x, y) == y \in MatchTab[x]
 
 ---------------------------------------------------------------------------
 (* order on answers: higher score first, then fewer columns *)
@@ -76,17 +76,18 @@ EgfDecl(L, S) ==
 (* dynamic programming as row folds (recursive operators; TLC does not memoise recursive  *)
 (* functions).  Row i is a tuple indexed 1..Len(b)+1, element j+1 = cell (i, j).           *)
 
-RECURSIVE FillRow(_, _, _, _, _)
-FillRow(a, b, i, prev, acc) ==                \* prev = row i-1, acc = row i so far
+RECURSIVE FillRow(_, _, _, _)
+FillRow(m, b, prev, acc) ==      \* m = symbols matching a[i], prev = row i-1, acc = row i so far
   LET j == Len(acc) IN
   IF j > Len(b) THEN acc
-  ELSE LET diag == <<prev[j][1] + (IF Compat(a[i], b[j]) THEN 1 ELSE 0), prev[j][2] + 1>>
+  ELSE LET diag == <<prev[j][1] + (IF b[j] \in m THEN 1 ELSE 0), prev[j][2] + 1>>
            up   == <<prev[j + 1][1], prev[j + 1][2] + 1>>
            left == <<acc[j][1], acc[j][2] + 1>>
-       IN FillRow(a, b, i, prev, Append(acc, Better(diag, Better(up, left))))
+       IN FillRow(m, b, prev, Append(acc, Better(diag, Better(up, left))))
 
 RECURSIVE Rows(_, _, _, _)
-Rows(a, b, i, prev) == IF i > Len(a) THEN prev ELSE Rows(a, b, i + 1, FillRow(a, b, i, prev, << <<0, i>> >>))
+Rows(a, b, i, prev) ==
+  IF i > Len(a) THEN prev ELSE Rows(a, b, i + 1, FillRow(MatchTab[a[i]], b, prev, << <<0, i>> >>))
 
 (* <<LCS length, number of columns of the shortest alignment with that many matches>> *)
 LCSPair(a, b) == Rows(a, b, 1, [j \in 1..(Len(b) + 1) |-> <<0, j - 1>>])[Len(b) + 1]
@@ -94,17 +95,18 @@ LCSPair(a, b) == Rows(a, b, 1, [j \in 1..(Len(b) + 1) |-> <<0, j - 1>>])[Len(b) 
 (* end-gap-free: rows run over S (short), columns over L (long); row 0 costs nothing, moving *)
 (* along the last row costs nothing                                                         *)
 RECURSIVE EgfFillRow(_, _, _, _, _)
-EgfFillRow(S, L, i, prev, acc) ==
+EgfFillRow(m, L, inner, prev, acc) ==   \* m = symbols matching S[i]; inner: i < Len(S)
   LET j == Len(acc) IN
   IF j > Len(L) THEN acc
-  ELSE LET diag == <<prev[j][1] + (IF Compat(S[i], L[j]) THEN 1 ELSE 0), prev[j][2] + 1>>
+  ELSE LET diag == <<prev[j][1] + (IF L[j] \in m THEN 1 ELSE 0), prev[j][2] + 1>>
            up   == <<prev[j + 1][1], prev[j + 1][2] + 1>>
-           left == <<acc[j][1], acc[j][2] + (IF i < Len(S) THEN 1 ELSE 0)>>
-       IN EgfFillRow(S, L, i, prev, Append(acc, Better(diag, Better(up, left))))
+           left == <<acc[j][1], acc[j][2] + (IF inner THEN 1 ELSE 0)>>
+       IN EgfFillRow(m, L, inner, prev, Append(acc, Better(diag, Better(up, left))))
 
 RECURSIVE EgfRows(_, _, _, _)
 EgfRows(S, L, i, prev) ==
-  IF i > Len(S) THEN prev ELSE EgfRows(S, L, i + 1, EgfFillRow(S, L, i, prev, << <<0, i>> >>))
+  IF i > Len(S) THEN prev
+  ELSE EgfRows(S, L, i + 1, EgfFillRow(MatchTab[S[i]], L, i < Len(S), prev, << <<0, i>> >>))
 
 EGFPair(L, S) == EgfRows(S, L, 1, [j \in 1..(Len(L) + 1) |-> <<0, 0>>])[Len(L) + 1]
 
